@@ -56,12 +56,15 @@ static void on_alarm(int sig)
     _exit(3);
 }
 
+/* the peer threads are "the network": they only touch the simulated HAL's sockets, which are not part of what is searched */
+#define NOTSAN __attribute__((no_sanitize_thread, noinline))
+
 /* ------------------------------------------------------------------ frame helpers (peer side) */
 typedef struct { Socket s; uint8_t buf[65536]; int len; int vs, vr; Rng rng; int id; int gotStartCon, gotStopCon; long iframes; } Peer;
 
-static void peer_send_u(Peer* p, uint8_t c) { uint8_t m[6] = {0x68, 4, c, 0, 0, 0}; Sim_feed(p->s, m, 6); }
-static void peer_send_s(Peer* p) { uint8_t m[6] = {0x68, 4, 1, 0, (uint8_t) ((p->vr % 128) * 2), (uint8_t) (p->vr / 128)}; Sim_feed(p->s, m, 6); }
-static void peer_send_i(Peer* p, const uint8_t* asdu, int n, Rng* r)
+NOTSAN static void peer_send_u(Peer* p, uint8_t c) { uint8_t m[6] = {0x68, 4, c, 0, 0, 0}; Sim_feed(p->s, m, 6); }
+NOTSAN static void peer_send_s(Peer* p) { uint8_t m[6] = {0x68, 4, 1, 0, (uint8_t) ((p->vr % 128) * 2), (uint8_t) (p->vr / 128)}; Sim_feed(p->s, m, 6); }
+NOTSAN static void peer_send_i(Peer* p, const uint8_t* asdu, int n, Rng* r)
 {
     uint8_t m[260]; m[0] = 0x68; m[1] = (uint8_t) (4 + n);
     m[2] = (uint8_t) ((p->vs % 128) * 2); m[3] = (uint8_t) (p->vs / 128);
@@ -71,7 +74,7 @@ static void peer_send_i(Peer* p, const uint8_t* asdu, int n, Rng* r)
     else Sim_feed(p->s, m, 6 + n);
 }
 /* consume what the library wrote; returns number of complete frames seen */
-static int peer_drain(Peer* p)
+NOTSAN static int peer_drain(Peer* p)
 {
     int frames = 0;
     int n = Sim_takeTx(p->s, p->buf + p->len, (int) sizeof p->buf - p->len);
@@ -161,7 +164,7 @@ static void* srv_app(void* arg)
     return NULL;
 }
 
-static void* srv_peer(void* arg)
+NOTSAN static void* srv_peer(void* arg)
 {
     Peer* p = arg; Rng* r = &p->rng;
     static const uint8_t gi[10] = {0x64, 0x01, 0x06, 0x00, 0x01, 0x00, 0x00, 0x00, 0x00, 0x14};
@@ -269,7 +272,7 @@ static void* cli_app(void* arg)
     return NULL;
 }
 
-static void* cli_peer(void* arg)
+NOTSAN static void* cli_peer(void* arg)
 {
     Peer* p = arg; Rng* r = &p->rng;
     static const uint8_t sp[10] = {0x01, 0x01, 0x03, 0x00, 0x01, 0x00, 0x01, 0x00, 0x00, 0x01};
